@@ -16,7 +16,7 @@ LEVEL = "exploration"
 RULE = (
     "case = (timeout T, cancel instant tc in {never, before the call, grid}, matching-response instant tr in {never, grid}, background traffic "
     "{none, bursts of notifications, flood every 10 ms, other-id responses}, progress stream [(t, token right/foreign/missing, fields)], "
-    "callback raising at chosen positions, optionally a follow-up request pending on the same connection while late progress for the finished one arrives; callback given as async def / callable object / partial / plain function returning the coroutine; the token shared with a sibling request or reused by a retry) on a 10 ms virtual-time grid biased to poll boundaries, the deadline and each other; "
+    "callback raising at chosen positions, optionally a follow-up request pending on the same connection while late progress for the finished one arrives; callback given as async def / callable object / partial / plain function returning the coroutine; the token shared with a sibling request or reused by a retry; a peer that stops reading after the request, so that further writes block) on a 10 ms virtual-time grid biased to poll boundaries, the deadline and each other; "
     "oracle = reference timeline of allowed outcomes; non-trivial = two of {cancel, response, deadline} within 0.5 s of each other, "
     "or a flood, or >=2 progress notifications with a raising callback; distinct = distinct full case"
 )
@@ -187,7 +187,13 @@ def check(case: Dict[str, Any]) -> Outcome:
                     if isinstance(e2, asyncio.CancelledError):
                         raise
 
-    res = drive(call, schedule, side=side, wait_first_write=not cancelled_before, max_vtime=T + 32.0)
+    slow_peer = case.get("slow_peer")
+    if slow_peer:
+        # the peer takes the request at once but then stops reading for `slow_peer` seconds: whatever the call writes
+        # next (the cancelled notification) blocks in an unbuffered stream
+        res = drive(call, schedule, side=side, wait_first_write=not cancelled_before, max_vtime=T + slow_peer / 100.0 + 32.0, write_capacity=0, drain_delays={1: slow_peer / 100.0})
+    else:
+        res = drive(call, schedule, side=side, wait_first_write=not cancelled_before, max_vtime=T + 32.0)
     t_end = first_end.get("t", res.t_end)
 
     # ---------------- classes / non-triviality
@@ -214,7 +220,14 @@ def check(case: Dict[str, Any]) -> Outcome:
 
     # ---------------- (1) ends no later than its timeout
     if res.outcome == "hang" or t_end > T + EPS:
-        out.fail("pending-request-outlives-its-timeout", f"outcome={o} t_end={t_end} T={T} bg={bg['kind']}")
+        out.fail("pending-request-outlives-its-timeout", f"outcome={o} t_end={t_end} T={T} bg={bg['kind']}" + (f" (peer not reading for {slow_peer / 100.0}s)" if slow_peer else ""))
+        return out
+    if slow_peer:
+        # with a peer that is not reading, which of {cancelled, timeout} ends the call depends on when the notification
+        # gets through; the deadline is what this case is about
+        out.classes = out.classes + ("peer-not-reading",)
+        if o == "return" and tr is None:
+            out.fail("returned-without-response", f"{res.value!r}")
         return out
 
     # ---------------- (2) allowed outcomes
@@ -409,6 +422,8 @@ def cases(draw):
     cb_raise = draw(st.lists(st.integers(0, 4), max_size=3, unique=True)) if nprog else []
     case = {"T": Tcs, "tc": tc, "tr": tr, "bg": bg, "progress": prog, "cb_raise": sorted(cb_raise),
             "use_cb": draw(st.sampled_from([True, True, True, False])), "use_token": draw(st.booleans())}
+    if tc is not None and tc > 0 and draw(st.integers(0, 4)) == 0 and not cancelled_case(case):
+        case["slow_peer"] = draw(st.sampled_from([50, 300, 1000]))
     if draw(st.integers(0, 2)) == 0:
         case["cb_shape"] = draw(st.sampled_from(["callable_object", "partial", "sync_wrapper"]))
     if case["use_token"] or tc is not None:
@@ -424,6 +439,10 @@ def cases(draw):
             case["progress"].append([Tcs + off, "right", ["progress", "total"], [off, 100, None]])
         case["progress"].sort(key=lambda p: p[0])
     return case
+
+
+def cancelled_case(case: Dict[str, Any]) -> bool:
+    return case.get("tc") is not None and case["tc"] < 0
 
 
 def job_hyp(col: Collector, seed: int, tier: str, shard: int, n: int) -> None:
@@ -449,6 +468,10 @@ def job_grid(col: Collector, seed: int, tier: str, shard: int, nshards: int) -> 
                         "progress": [[10, "right", ["progress", "total"], [1, 2, None]], [60, "foreign", ["progress"], [5, None, None]], [110, "right", ["progress"], [9, None, None]]],
                         "cb_raise": [0], "use_cb": True, "use_token": True}
                 col.record(case, check(case))
+                if bgk == "none" and tc is not None and tc > 0:
+                    for sp in (50, 400):
+                        c3 = dict(case, slow_peer=sp, progress=[], cb_raise=[])
+                        col.record(c3, check(c3))
                 if bgk == "none":
                     for extra in ({"cb_shape": "callable_object"}, {"cb_shape": "sync_wrapper"}, {"shared_token": True}, {"retry_same_token": True}):
                         c2 = dict(case, **extra)
